@@ -191,7 +191,115 @@ func runC07(c *core.Ctx) {
 			},
 			core.SuccessReturn, nil, "removing an account releases its code entry (checked)")
 	}
+	c07SameCodeAndErrors(c)
 	c.Floor("C07/counter-writers", 4)
 	c.Floor("C07/decrement-guarded", 2)
 	c.Floor("C07/counter-change-persisted", 3)
+}
+
+// c07SameCodeAndErrors: (a) saving the code an account already has must not touch the code
+// entries, neither when saving nor when that save is undone: the entry updates in saveCode and
+// the undo steps of journalEntryCode.Revert lie behind the false branch of
+// bytes.Equal(oldCodeHash, newCodeHash). (b) a failed read of a code entry is an error of the
+// operation, never "no entry yet": the non-nil error edge of every getCodeEntry call leads only
+// to error returns.
+func c07SameCodeAndErrors(c *core.Ctx) {
+	const pkg = "data/state"
+	notEqualHashes := func(b *ssa.BasicBlock, oldKey, newKey string) bool {
+		for _, cd := range core.CondsAt(b) {
+			call, ok := cd.V.(*ssa.Call)
+			if !ok || cd.Taken || call.Call.StaticCallee() == nil || call.Call.StaticCallee().Name() != "Equal" || len(call.Call.Args) != 2 {
+				continue
+			}
+			a0, a1 := core.ExprKey(call.Call.Args[0]), core.ExprKey(call.Call.Args[1])
+			if (a0 == oldKey && a1 == newKey) || (a0 == newKey && a1 == oldKey) {
+				return true
+			}
+		}
+		return false
+	}
+	if fn := anchorM(c, pkg, "AccountsDB", "saveCode"); fn != nil {
+		var upOld, upNew *ssa.Call
+		core.Instrs(fn, func(in ssa.Instruction) {
+			if call, ok := in.(*ssa.Call); ok && call.Call.StaticCallee() != nil {
+				switch call.Call.StaticCallee().Name() {
+				case "updateOldCodeEntry":
+					upOld = call
+				case "updateNewCodeEntry":
+					upNew = call
+				}
+			}
+		})
+		if upOld == nil || upNew == nil {
+			c.Undecided("C07/same-code-leaves-entries-alone", "AccountsDB.saveCode", fn.Pos(), "updateOldCodeEntry/updateNewCodeEntry not found")
+		} else {
+			oldKey, newKey := core.ExprKey(upOld.Call.Args[1]), core.ExprKey(upNew.Call.Args[1])
+			ok := notEqualHashes(upOld.Block(), oldKey, newKey) && notEqualHashes(upNew.Block(), oldKey, newKey)
+			c.Check(ok, "C07/same-code-leaves-entries-alone", "AccountsDB.saveCode", upOld.Pos(),
+				"the old entry is released and the new one acquired only when bytes.Equal(oldCodeHash, newCodeHash) is false",
+				"the code entries are updated without a dominating test that the old and the new code hash differ: saving the code an account already has goes through release+acquire and is journalised, and undoing that save decrements the entry once more")
+		}
+	}
+	if fn := anchorM(c, pkg, "journalEntryCode", "Revert"); fn != nil {
+		// every trie write of the undo lies behind old != new
+		n := 0
+		okAll := true
+		core.Instrs(fn, func(in ssa.Instruction) {
+			cc := core.CallOf(in)
+			if cc == nil {
+				return
+			}
+			isWrite := cc.IsInvoke() && (cc.Method.Name() == "Update" || cc.Method.Name() == "Delete")
+			if g := cc.StaticCallee(); g != nil && (g.Name() == "revertOldCodeEntry" || g.Name() == "revertNewCodeEntry" || g.Name() == "saveCodeEntry") {
+				isWrite = true
+			}
+			if !isWrite {
+				return
+			}
+			n++
+			if !notEqualHashes(in.Block(), "recv.oldCodeHash", "recv.newCodeHash") {
+				okAll = false
+			}
+		})
+		c.Check(okAll && n > 0, "C07/same-code-leaves-entries-alone", "journalEntryCode.Revert", fn.Pos(),
+			"the undo touches code entries only when bytes.Equal(oldCodeHash, newCodeHash) is false",
+			"the undo of a code change touches code entries without a dominating test that the two hashes differ: undoing a same-code save restores the entry and then decrements it again")
+	}
+	get := c.P.Method(pkg, "AccountsDB", "getCodeEntry")
+	if get == nil {
+		get = c.P.Func(pkg, "getCodeEntry")
+	}
+	n := 0
+	for _, fn := range c.P.FuncsOfPkg(pkg) {
+		k := 0
+		for _, in := range core.CallsIn(fn, func(in ssa.Instruction, cc *ssa.CallCommon) bool {
+			return cc.StaticCallee() != nil && cc.StaticCallee().Name() == "getCodeEntry"
+		}) {
+			call, ok := in.(*ssa.Call)
+			if !ok {
+				continue
+			}
+			k++
+			n++
+			c.Analysed(fname(fn))
+			edges, tail, handled := core.ErrNilEdges(call)
+			okErr := handled && (tail || len(edges) > 0)
+			why := "the error of the read is not tested"
+			if okErr && !tail {
+				for e := range edges {
+					b := fn.Blocks[e[0]]
+					other := b.Succs[1-e[1]]
+					if !core.OnlyErrorReturnsFrom(other, b, nil) {
+						okErr, why = false, "the branch taken when the read fails continues instead of returning the error ("+c.P.Pos(firstPos(other))+")"
+					}
+				}
+			}
+			c.Check(okErr, "C07/code-entry-read-errors-propagate", fmt.Sprintf("%s/getCodeEntry#%d", fname(fn), k), in.Pos(),
+				"a failed read of the code entry makes the operation fail",
+				why+": a transient read failure is taken for 'no entry yet', the entry is re-created with one reference and every reference counted so far is lost")
+		}
+	}
+	_ = get
+	c.Floor("C07/code-entry-read-errors-propagate", 2)
+	c.Floor("C07/same-code-leaves-entries-alone", 2)
 }
